@@ -6,8 +6,8 @@ patch=$1; prop=$2; tier=${3:-quick}
 d=$(mktemp -d /scratch/trial.XXXXXX)
 trap 'rm -rf "$d"' EXIT
 mkdir -p "$d/repo" "$d/verif"
-rsync -a --exclude .git /repo/ "$d/repo/"
-rsync -a --exclude .git --exclude build/cases --exclude evidence/replays /verif/ "$d/verif/"
+rsync -a --exclude .git /repo/ "$d/repo/" || [ $? -eq 24 ]
+rsync -a --exclude .git --exclude build/cases --exclude build/tmp --exclude build/logs --exclude evidence/replays /verif/ "$d/verif/" || [ $? -eq 24 ]
 if [ "$patch" != "-" ]; then (cd "$d/repo" && patch -p1 --no-backup-if-mismatch < "$patch" >/dev/null); fi
 cd "$d/verif"; set +e
 VERIF_REPO="$d/repo" ./check "$prop" --tier "$tier" > "$d/out.txt" 2>&1; rc=$?; grep -E "^(VIOLATION|KNOWN-FINDING|OK property)" "$d/out.txt" || true; tail -${TRIAL_TAIL:-8} "$d/out.txt"
